@@ -260,9 +260,9 @@ func (c *w5Core) RouteApplicationStart(name gen.Atom, mode gen.ApplicationMode, 
 	return c.rec(w5Route{Kind: "ApplicationStart", To: "app:" + string(name), ToName: string(name), Ret: c.byName(name)})
 }
 
-func w5pid(p gen.PID) string     { return fmt.Sprintf("pid:%s/%d/%d", string(p.Node), p.ID, p.Creation) }
+func w5pid(p gen.PID) string        { return fmt.Sprintf("pid:%s/%d/%d", string(p.Node), p.ID, p.Creation) }
 func w5name(p gen.ProcessID) string { return fmt.Sprintf("name:%s/%s", string(p.Node), string(p.Name)) }
-func w5event(e gen.Event) string { return fmt.Sprintf("event:%s/%s", string(e.Node), string(e.Name)) }
+func w5event(e gen.Event) string    { return fmt.Sprintf("event:%s/%s", string(e.Node), string(e.Name)) }
 func w5alias(a gen.Alias) string {
 	return fmt.Sprintf("alias:%s/%d.%d.%d/%d", string(a.Node), a.ID[0], a.ID[1], a.ID[2], a.Creation)
 }
@@ -281,6 +281,7 @@ type w5Relay struct {
 	segs     int64
 	lastMove int64 // unix nano of the last forwarded byte
 	done     chan struct{}
+	delayUs  int // per-link delay: sleep up to this many µs before a segment (0 = none)
 }
 
 func (r *w5Relay) nextSize() int {
@@ -351,6 +352,9 @@ func (r *w5Relay) run(dst net.Conn, src net.Conn) {
 			r.total += int64(k)
 			r.segs++
 			r.mu.Unlock()
+			if r.delayUs > 0 && r.rng.Chance(1, 3) {
+				time.Sleep(time.Duration(r.rng.Intn(r.delayUs)+1) * time.Microsecond)
+			}
 			if _, werr := dst.Write(pend[:k]); werr != nil {
 				src.Close()
 				return
@@ -388,15 +392,16 @@ type w5Pair struct {
 }
 
 type w5Opts struct {
-	Pool          int
-	RelayMode     int
-	MaxAtoB       int  // A.peer_maxmessagesize
-	MaxBrecv      int  // B.node_maxmessagesize
-	ImportantA    bool // peer flag on A (B supports important delivery)
-	ImportantB    bool // node flag on B
-	AtomCache     map[gen.Atom]uint16
-	WireCap       int
-	NoRelayBtoA   bool
+	Pool        int
+	RelayMode   int
+	MaxAtoB     int  // A.peer_maxmessagesize
+	MaxBrecv    int  // B.node_maxmessagesize
+	ImportantA  bool // peer flag on A (B supports important delivery)
+	ImportantB  bool // node flag on B
+	AtomCache   map[gen.Atom]uint16
+	WireCap     int
+	NoRelayBtoA bool
+	LinkDelays  bool // give every pool link its own delay (links overtake each other)
 }
 
 func w5NewConn(core *w5Core, lg *w5Log, peer gen.Atom, peerCreation int64, o w5Opts, sideA bool) (gen.Connection, error) {
@@ -457,6 +462,10 @@ func w5NewPair(rng *Rng, o w5Opts) (*w5Pair, error) {
 		rba := &w5Relay{rng: rng.Fork(), mode: o.RelayMode, wireCap: o.WireCap, done: make(chan struct{})}
 		if o.NoRelayBtoA {
 			rba.mode = 4
+		}
+		if o.LinkDelays {
+			rab.delayUs = []int{0, 50, 400, 2000}[rng.Intn(4)]
+			rba.delayUs = []int{0, 50, 400}[rng.Intn(3)]
 		}
 		p.ab = append(p.ab, rab)
 		p.ba = append(p.ba, rba)
